@@ -276,7 +276,12 @@ class World:
     def layout(self, order):
         """Normal form of the collection after finalize (status-free)."""
         B = self.B
-        qc = self.collection({}, order)
+        try:
+            qc = self.collection({}, order)
+        except (fg.UnsupportedGitCommand, HarnessError):
+            raise
+        except Exception as e:
+            return ['exception', type(e).__name__]
         return [(k, str(v[B.QueueBranch]),
                  [str(b) for b in v[B.QueueIntegrationBranch]])
                 for k, v in qc._queues.items()]
@@ -290,13 +295,18 @@ class World:
         validated once (neither step looks at build statuses)."""
         import bert_e.exceptions as exc
         if kind not in self._tpl:
-            qc = self.collection({}, order)
             try:
+                qc = self.collection({}, order)
                 qc.validate()
                 self._tpl[kind] = ('ok', qc)
             except exc.IncoherentQueues as e:
                 self._tpl[kind] = ('incoherent',
                                    sorted(re.findall(r'\[(Q\d+)\]', str(e))))
+            except (fg.UnsupportedGitCommand, HarnessError):
+                raise
+            except Exception as e:
+                self._tpl[kind] = ('exception', '%s: %s' % (
+                    type(e).__name__, str(e)[:200]))
         return self._tpl[kind]
 
     def evaluate(self, state, order, force=False, fresh=False, kind=None):
@@ -309,12 +319,17 @@ class World:
         of that order with this case's status table as host (bulk mode)."""
         import bert_e.exceptions as exc
         if kind is None:
-            qc = self.collection(state, order, force, fresh)
             try:
+                qc = self.collection(state, order, force, fresh)
                 qc.validate()
             except exc.IncoherentQueues as e:
                 return ('incoherent',
                         sorted(re.findall(r'\[(Q\d+)\]', str(e))))
+            except (fg.UnsupportedGitCommand, HarnessError):
+                raise
+            except Exception as e:
+                return ('exception', '%s: %s' % (type(e).__name__,
+                                                 str(e)[:200]))
         else:
             tpl = self.template(kind, order)
             if tpl[0] != 'ok':
@@ -406,6 +421,19 @@ def judge(world, state, res, force=False):
         raise HarnessError('oracle inconsistent on %r %r: got %r want %r' % (
             spec, state, res, (want_sel, want_tips)))
     return out
+
+
+IDMAP = {1: 12, 2: 3, 3: 107, 4: 1}
+IDBACK = {v: k for k, v in IDMAP.items()}
+
+
+def renamed(res, ident=False):
+    if res[0] != 'ok':
+        return res
+    f = (lambda p: p) if ident else IDBACK.get
+    return ('ok', [f(p) for p in res[1]],
+            {v: f(pk[0]) for v, (pk, sha) in res[2].items()},
+            [f(p) for p in res[3]])
 
 
 def case_json(spec, state, order_kind='git', force=False, seed=0):
@@ -551,6 +579,13 @@ def shard_sweep(ctx, shard, acc):
             if w.layout(o) != base_layout:
                 orders.append((kind, o))
                 acc.cls('structures_sensitive_to_add_order')
+        # --- PR ids are arbitrary numbers: same queue under other ids
+        w2 = None
+        if 2 <= npr <= 3 and h32('ids', seed, idx) % 8 == 0:
+            spec2 = dict(spec)
+            spec2['prs'] = [[IDMAP[p], d] for p, d in spec['prs']]
+            w2 = World(spec2)
+            acc.cls('structures_rerun_under_other_pr_ids')
         subkey = '%s/%dpr/%s' % (tag, npr, mode)
         sub[subkey] = sub.get(subkey, 0) + 1
         sample_real = npr >= 2 and h32('real', seed, spec_id(spec)) % \
@@ -601,6 +636,16 @@ def shard_sweep(ctx, shard, acc):
                     if kind == 'git':
                         disagreements.append((idx, mask, verdicts[0][0]))
                         real_jobs.setdefault(idx, set()).add(mask)
+            if w2 is not None:
+                res2 = w2.evaluate(w2.state_of(mask), w2.git_order,
+                                   kind='git')
+                acc.cls('other_pr_ids_cases')
+                if renamed(res2) != renamed(
+                        w.evaluate(state, w.git_order, kind='git'),
+                        ident=True):
+                    report(buf, w2, w2.state_of(mask), [(
+                        'pr_id_dependence', 'all', 'outcome %r differs from '
+                        'the outcome under ids 1..n' % (res2[:2],))])
             # --- metamorphic sample: other non-green states, same selection
             if mask and h32('meta', seed, idx, mask) % (
                     32 if npr <= 3 else 256) == 0:
@@ -667,6 +712,10 @@ def metamorphic(acc, buf, w, state, mask, seed):
     for st in variants:
         acc.cls('metamorphic_cases')
         res = w.evaluate(st, w.git_order, kind='git')
+        direct = judge(w, st, res)      # the oracle reads any alphabet
+        if direct:
+            report(buf, w, st, direct, extra_sig={'alphabet': 'extended'})
+            continue
         bad = None
         if res[0] != 'ok' or res[1] != base[1] or res[2] != base[2]:
             bad = ('state_alphabet', 'selection differs when FAILED is '
@@ -761,11 +810,17 @@ def write_corpus(ctx, items):
     out = {'property': 'C05', 'tier': ctx['tier'],
            'format': 'spec as vf.fakegit.build_queue_world; failed = queue '
                      'commits [pr, version] that are FAILED, all others '
-                     'SUCCESSFUL',
+                     'SUCCESSFUL; <= 3 PRs: every disagreeing case, 4 PRs: '
+                     'the 3 cases with fewest failures per structure '
+                     '(n_cases = all)',
            'structures': [grouped[k] for k in sorted(
                grouped, key=lambda k: (len(grouped[k]['spec']['prs']), k))]}
     for g in out['structures']:
         g['cases'].sort(key=lambda c: (len(c['failed']), c['failed']))
+        g['n_cases'] = len(g['cases'])
+        if len(g['spec']['prs']) > 3:
+            g['cases'] = g['cases'][:3]     # the ones with fewest failures
+    out['n_cases'] = sum(g['n_cases'] for g in out['structures'])
     with open(os.path.join(d, 'c05_disagreements.json'), 'w') as f:
         json.dump(out, f, separators=(',', ':'), sort_keys=True)
 
